@@ -824,6 +824,10 @@ def _ri_start(e, c, a): return Ref(deref(a[0]).f, 0)
 def _ri_end(e, c, a): return Ref(deref(a[0]).f, 1)
 @model('mem::drop')
 def _mem_drop(e, c, a): e.drop_value(a[0]); return UNIT
+@model('Box::drop')
+def _box_drop(e, c, a):
+    # <Box<T> as Drop>::drop after the content was moved out (box deref move): frees the allocation only
+    return UNIT
 @model('mem::swap')
 def _mem_swap(e, c, a):
     x, y = a; t = x.get(); x.set(y.get()); y.set(t); return UNIT
